@@ -384,6 +384,25 @@ func sampleBlinding() (r, s fr.Element, err error) {
 // Prove generates the proof of knowledge of a r1cs with full witness (secret + public part).''')])
 save('benign-rand-helper','C20','backend/groth16/bls12-381/prove.go','the two SetRandom draws extracted into a helper returning (r, s, err)')
 m('permagree-export','C19',['PERM-AGREE'],'std/gkr/compile.go','''	return utils.Map(s.permutations.InstancesPermutation, utils.SliceAt(s.assignments[v]))''','''	return utils.Map(s.permutations.SortedInstances, utils.SliceAt(s.assignments[v]))''',note='F7 reintroduced: Export reads through the inverse permutation')
+m('argalias-divunchecked','C04',['ARG-ALIAS'],'frontend/cs/r1cs/api.go','''		return expr.NewLinearExpression(0, n2)
+	}
+
+	// v1 is not constant
+	return builder.mulConstant(v1, n2, false)
+}
+
+// Div''','''		return expr.NewLinearExpression(0, n2)
+	}
+
+	// v1 is not constant
+	return builder.mulConstant(v1, n2, true)
+}
+
+// Div''',note='DivUnchecked by a constant scales the caller-held dividend in place')
+edit('frontend/cs/r1cs/api.go',[('''		return builder.mulConstant(v1, n2, !first)''','''		inPlace := first == false
+		return builder.mulConstant(v1, n2, inPlace)''')])
+save('benign-argalias-flag','C04','frontend/cs/r1cs/api.go','in-place flag computed as first == false through a local')
+m('predagree-bn254-g2','C16',['PRED-AGREE'],'std/algebra/emulated/sw_bn254/pairing.go','''	isInSubgroup := pr.g2.IsEqual(Q, _Q)''','''	isInSubgroup := pr.g2.IsEqual(_Q, _Q)''',note='IsOnG2 compares the short-vector image with itself instead of with Q')
 json.dump({'comment':'selftest mutants: each patch breaks one rule instance and must be detected by the listed rule(s) of its property; produced by tools/make_selftest.py','mutants':M}, open(os.path.join(root,'selftest','mutants.json'),'w'), indent=1)
 subprocess.run(['git','-C','/repo','worktree','remove','--force',WT],capture_output=True)
 print(len(M),'mutants')
